@@ -667,6 +667,11 @@ func c05FlagMonotone(c *Ctx, fns []*ssa.Function) {
 							return
 						}
 					}
+					// assigned from IsKnown()/IsWhollyKnown(): this is a 'known so far' flag that
+					// the assignment can clear — and set back
+					if call, ok := v.(*ssa.Call); ok && calleeOf(&call.Call).isCtyValueMethod("IsKnown", "IsWhollyKnown") {
+						cleared = true
+					}
 					if bad == nil {
 						bad = v
 					}
